@@ -244,5 +244,13 @@ fn main() {
     if args.len() > 1 && (args[1].ends_with("rustc") || args[1].ends_with("rustc.exe")) {
         args.remove(1);
     }
+    // configuration-invariance rule: present the crate with the release channel's cfg (`build.rs` emits --cfg nightly for this toolchain)
+    if let Ok(ch) = std::env::var("VEKSCAN_CHANNEL") {
+        for i in 1..args.len() {
+            if args[i - 1] == "--cfg" && (args[i] == "nightly" || args[i] == "stable" || args[i] == "beta" || args[i] == "dev") {
+                args[i] = ch.clone();
+            }
+        }
+    }
     rustc_driver::run_compiler(&args, &mut Cb);
 }
